@@ -34,6 +34,7 @@ type hexArg struct {
 	Bad  bool   `json:"bad,omitempty"` // a non-hex character
 	Up   bool   `json:"up,omitempty"`  // upper case
 	Pfx  bool   `json:"pfx,omitempty"` // 0x prefix
+	Sign int    `json:"sign,omitempty"` // 1, 2: the first digit is replaced by '-' / '+' (same length, not hex)
 }
 
 func (h hexArg) String() string {
@@ -46,6 +47,9 @@ func (h hexArg) String() string {
 	}
 	if h.Bad && len(s) > 0 {
 		s = s[:len(s)/2] + "g" + s[len(s)/2+1:]
+	}
+	if h.Sign > 0 && len(s) > 0 {
+		s = string("-+"[(h.Sign-1)%2]) + s[1:]
 	}
 	if h.Pfx {
 		s = "0x" + s
@@ -300,6 +304,13 @@ func leftPad32(s string) []byte {
 	return out
 }
 
+func trunc15(s string) string {
+	if len(s) > 24 {
+		return s[:12] + ".." + s[len(s)-8:]
+	}
+	return s
+}
+
 func runC15(c c15Case) (*vh.Violation, vh.Outcome) {
 	o := vh.Outcome{Labels: []string{fmt.Sprintf("kind%d", c.Kind)}}
 	m := c.message()
@@ -307,12 +318,15 @@ func runC15(c c15Case) (*vh.Violation, vh.Outcome) {
 	if pan != nil {
 		return vh.V("C15/panic", "conversion of a kind-%d request panicked: %v", c.Kind, pan), o
 	}
-	outOfRange := c.Chain > 65535 || c.CL > 255 || len(c.seqs()) > 65535 || len(c.Module) > 32 || c.H1.Odd || c.H1.Bad || (c.Kind == 9 && c.H1.Len > 65535)
+	outOfRange := c.Chain > 65535 || c.CL > 255 || len(c.seqs()) > 65535 || len(c.Module) > 32 || c.H1.Odd || c.H1.Bad || c.H1.Sign > 0 || (c.Kind == 9 && c.H1.Len > 65535)
 	canonical := c.Module == "TokenBridge"
 	o.NonTrivial = outOfRange || (c.Kind == 5 || c.Kind == 6) && !canonical || c.Kind == 0
 	if err != nil {
 		o.Labels = append(o.Labels, "rejected")
 		return nil, o
+	}
+	if (c.Kind == 1 || c.Kind == 2) && c.H1.Sign > 0 && c.H1.Len > 0 || c.Kind == 2 && c.H2.Sign > 0 && c.H2.Len > 0 {
+		return vh.V("C15/malformed-hex-accepted", "a kind-%d request whose hex field starts with a sign character (%q / %q) was turned into a VAA instead of being rejected", c.Kind, trunc15(c.H1.String()), trunc15(c.H2.String())), o
 	}
 	if v == nil {
 		return vh.V("C15/nil-without-error", "conversion returned neither a VAA nor an error"), o
@@ -498,6 +512,11 @@ func genHex(t *rapid.T, label string, canonLen int) hexArg {
 		h.Pfx = true
 		if h.Len > 0 {
 			h.Len--
+		}
+	case 6: // a sign where the first digit should be: still the canonical length, and a number parser would take it
+		h.Sign = 1 + int(h.Seed%2)
+		if h.Seed%3 == 0 {
+			h.Seed = 0 // small magnitudes too
 		}
 	}
 	return h
